@@ -250,6 +250,11 @@ def d3_validation(ctx):
     rs = [(s, ' && '.join(('' if pol else 'NOT ') + unparse(t) for t, pol in guards_of(cov, s, stop=fi))) for s in statements(fi) if isinstance(s, ast.Raise)]
     ok = any("'|' in name" in g for s, g in rs)
     ctx.check(rule, 'covobs.py:Covobs.__init__#rejects[separator in name]', ok, "names containing '|' are rejected", "no raise guarded by `'|' in name`", cov.loc(fi))
+    # ... for every way of constructing a Covobs: the test is not nested under a condition on the other arguments (grad / pos are public)
+    sep = [(s_, [unparse(t) for t, pol in guards_of(cov, s_, stop=fi) if "'|'" not in unparse(t)]) for s_, g in rs if "'|' in name" in g]
+    if sep:
+        ctx.check(rule, 'covobs.py:Covobs.__init__#rejects[separator in name]-unconditional', any(not extra for _, extra in sep), 'the separator test applies to every construction',
+                  "the separator test runs only under %s: a Covobs built with the other form of the arguments (e.g. cov_Obs(..., grad=...)) keeps a name with '|' and is later taken for a replica" % sep[0][1], cov.loc(sep[0][0]))
     fc = cov.func('Covobs._set_cov')
     rs = [(s, ' && '.join(('' if pol else 'NOT ') + unparse(t) for t, pol in guards_of(cov, s, stop=fc))) for s in statements(fc) if isinstance(s, ast.Raise)]
     sym = [g for s, g in rs if ('[i][j]' in g and '[j][i]' in g) or ('[i, j]' in g and '[j, i]' in g)]
